@@ -210,6 +210,17 @@ def t1(ctx):
                "decided, on the AST; open() and io.StringIO(newline=None) are ASSUMED to translate line ends as documented; a caller-supplied stream "
                "is taken as it is; everything after the stream function (routes, offsets, namespaces) is bounded only")
     fails = source_route_obligations(ctx)
+    from contracts import C13routes
+    fails2 = C13routes.route_obligations(ctx)
+    if fails2:
+        w2 = C13routes.native_offsets_disagree()
+        for name, target, why in fails2:
+            if w2 is not None:
+                ctx.fail(name, dict(key="offsets|%s|%s" % (w2["route"], sorted(w2["options"].items())), function=target, why=why, **w2),
+                         detail="%s; native: %s with %r gives %r, expected %r" % (why, w2["route"], w2["options"], w2["got"], w2["want"]), kind="T1")
+            else:
+                ctx.fail(name, dict(key="site:%s" % name, function=target, why=why, native="Tree.get at every offset and TreeList.read agree with the whole-list route on the sample documents"),
+                         detail=why, kind="T1", no_input=True)
     if fails:
         w = native_routes_disagree()
         for name, target, why in fails:
@@ -222,6 +233,11 @@ def t1(ctx):
 
 
 def replay(ctx, rec):
+    if str((rec.get("witness") or {}).get("key", "")).startswith("offsets|") or str(rec.get("obligation", "")).startswith(("Tree._parse_and_", "TreeList._parse_and_")):
+        from contracts import C13routes
+        w2 = C13routes.native_offsets_disagree()
+        print(w2 or "Tree.get at every offset and TreeList.read agree with the whole-list route on the sample documents")
+        return w2 is None
     w = native_routes_disagree()
     print(w or "data=, file= and path= agree on every sample document, line-end convention and option set")
     return w is None
